@@ -1,7 +1,7 @@
 """C15 — CQRS buses and processors dispatch by type name with the configured ack policy."""
 from . import common as C
 
-HEADER = 'From WM Require Import Base.Prelude Message.Model Handler.RouterHandle CQRS.Model CQRS.Reg CQRS.Calls Corr.C15.\n' \
+HEADER = 'From WM Require Import Base.Prelude Message.Model Handler.RouterHandle CQRS.Model CQRS.Reg CQRS.Calls CQRS.Names Corr.C15.\n' \
          'Definition mNF : mevent val := MNameFrom. Definition mUN : N -> N -> bool -> bool -> mevent val := MUnmarshal. Definition mHD : N -> N -> mevent val := MHandle.\n' \
          'Definition mMA : val -> mevent val := MMarshal. Definition mNA : val -> mevent val := MName.\n' \
          'Definition mNone : option (list (mevent val)) := None. Definition mSome (l : list (mevent val)) : option (list (mevent val)) := Some l.\n'
@@ -169,6 +169,11 @@ def mtrace_term(x):
     if not x.get('wrapped'): return 'mNone'
     return '(mSome %s)' % C.coq_list([mevent_term(e) for e in x.get('mtrace') or []])
 
+NGEN = ['GFullyQualified', 'GStructName', '(GNamedStruct GFullyQualified)', '(GNamedStruct GStructName)', '(GNamedStruct (GNamedStruct GStructName))']
+def chars(x): return C.coq_list([N(b) for b in x.encode('utf-8')])
+def name_term(c):
+    return '(NameC %s %d %s %s %s)' % (NGEN[c['gen']], c['depth'], chars(c['base']), '(Some %s)' % chars(c['own']) if c['own'] else 'None', chars(c['obs']))
+
 def describe(d, tabs):
     return dict(readable=dict(metadata={sv(k): sv(v) for k, v in d['meta']}, payload=sv(d['payload']), sent_value=rv(*d['sent']) if d.get('sent') else None,
                               handlers=['h%d:%s' % (h[0], TYPES[h[1]]) for h in d['handlers']], observed=rtrace(d['trace'])),
@@ -206,6 +211,7 @@ def run(ctx, nscen=None, nbus=None):
             res.count('source=%s' % d['source'])
             res.count('onhandle=%s' % OH[d['onhandle']])
             res.count('marshaler_wrapped=%s' % bool(d.get('wrapped')))
+            for hp in d.get('hptr') or []: res.count('generic_handler_instantiated_at=%s' % ('*T' if hp else 'T'))
             res.count('flags=ackErr:%d,ackUnknown:%d' % (d['ack_errors'], d['ack_unknown']))
             res.count('handlers_in_router_handler=%d' % len(d['handlers']))
             res.count('router_handlers_on_processor=%d' % d['router_handlers'])
@@ -235,6 +241,7 @@ def run(ctx, nscen=None, nbus=None):
             res.count('bus=%s/%s' % (['command', 'event'][c['buskind']], c['ctor']))
             res.count('bus_result=%s' % (BRES[c['res']] if c['res'] < len(BRES) else 'other'))
             res.count('bus_concurrency=%d' % c['conc'])
+            res.count('sent_value_pointer_depth=%d' % c.get('depth', 0))
             if c.get('anomalies') or c['res'] >= len(BRES):
                 res.violations.append(dict(signature='C15/bus/anomaly', what=(c.get('anomalies') or ['unclassified'])[0], case=describe_bus(c, tabs)))
                 continue
@@ -266,6 +273,10 @@ def run(ctx, nscen=None, nbus=None):
                 continue
             regsgood.append(c)
             res.nontrivial.add(('regs', c['kind'], c['depr'], tuple((x['op'], x['res'], tuple((h['ty'], h['ptr'], bool(h['topic']), h['sub']) for h in x['specs'] or [])) for x in c['calls'])))
+        names = data.get('namecases') or []
+        for c in names:
+            res.evaluations += 1
+            res.count('name_fn_pointer_depth=%d' % c['depth'])
         # evaluate: tables as definitions, cases refer to them
         used = sorted({d['tab'] for d in good} | {c['tab'] for c in busgood} | {c['tab'] for c in reggood} | {c['tab'] for c in regsgood})
         tabdefs = ''.join('Definition tab%d : codec_tab := %s.\n' % (i, tab_term(tabs[i])) for i in used)
@@ -274,6 +285,7 @@ def run(ctx, nscen=None, nbus=None):
                        + 'Definition buscases : list bus_case := %s.\n' % C.coq_list([bus_term(c) for c in busgood])
                        + 'Definition mtraces : list (option (list (mevent val))) := %s.\n' % C.coq_list([mtrace_term(d) for d in good])
                        + 'Definition bmtraces : list (option (list (mevent val))) := %s.\n' % C.coq_list([mtrace_term(c) for c in busgood])
+                       + 'Definition namecases : list name_case := %s.\n' % C.coq_list([name_term(c) for c in names])
                        + 'Definition sents : list (option val) := %s.\n' % C.coq_list(['(Some %s)' % val(*d['sent']) if d.get('sent') else 'None' for d in good])
                        + 'Definition rereads : list (option N) := %s.\n' % C.coq_list(['(Some %s)' % N(c['reread']) if c.get('reread', -1) >= 0 else 'None' for c in busgood])
                        + 'Definition regscases : list regs_case := %s.\n' % C.coq_list([regs_term(c) for c in regsgood])
@@ -282,7 +294,9 @@ def run(ctx, nscen=None, nbus=None):
                        [('R_mis', 'c15_mismatches cases'), ('R_vio', 'c15_violations cases'),
                         ('B_mis', 'bus_mismatches buscases'), ('B_vio', 'bus_violations buscases'), ('T_rt', 'c15_tab_failures tabs'), ('G_mis', 'reg_mismatches regcases'), ('S_mis', 'regs_mismatches regscases'), ('S_vio', 'regs_violations regscases'),
                         ('M_mis', 'mc_mismatches cases mtraces'), ('M_vio', 'mc_violations cases mtraces'), ('BM_mis', 'bmc_mismatches buscases bmtraces'), ('BM_vio', 'bmc_violations buscases bmtraces'),
-                        ('O_vio', 'own_violations buscases rereads'), ('E_vio', 'sent_violations cases sents')])
+                        ('N_vio', 'name_violations namecases'), ('O_vio', 'own_violations buscases rereads'), ('E_vio', 'sent_violations cases sents')])
+        for i in r['N_vio']:
+            res.violations.append(dict(signature='C15/name', what='a name function of name.go returns a name that depends on the pointer depth of the value (or is not the type name / last segment / own Name())', case=names[i]))
         for i in r['O_vio']:
             res.violations.append(dict(signature='C15/bus/ownership', what='the payload of a published message, re-read after the later calls of the same bus, is not what its own call prescribed (value encoding / last callback edit): a later Send/Publish affected an earlier message', case=dict(describe_bus(busgood[i], tabs), reread_payload=sv(busgood[i]['reread']) if busgood[i]['reread'] >= 0 else None)))
         for i in r['E_vio']:
